@@ -57,6 +57,7 @@ Proof.
   - do 3 eexists; split; [reflexivity|auto].
   - destruct (chan_send c v H). do 3 eexists; split; [reflexivity|auto].
   - destruct (chan_send c v H) as [[|] H1]; do 3 eexists; split; try reflexivity; auto.
+  - destruct (chan_send c v H). do 3 eexists; split; [reflexivity|auto].
 Qed.
 
 Example C06_nonvacuous :
